@@ -371,6 +371,12 @@ Qed.
 
 (* ---- reachable states ---- *)
 
+Lemma age_all_keys l : keys (age_all l) = keys l.
+Proof. unfold keys, age_all. rewrite map_map. reflexivity. Qed.
+
+Lemma total_age_all l : total (age_all l) = total l.
+Proof. induction l as [|x l IH]; [reflexivity|]. change (r_size x + total (age_all l) = r_size x + total l). rewrite IH. reflexivity. Qed.
+
 Lemma step_unique st o : UniqueKeys (rows st) -> UniqueKeys (rows (step st o)).
 Proof.
   intros Hu. destruct o; cbn [step rows]; auto.
@@ -378,6 +384,39 @@ Proof.
   - unfold UniqueKeys. rewrite set_age_keys. exact Hu.
   - apply unique_del. exact Hu.
   - apply (evict_facts st Hu).
+  - unfold UniqueKeys. rewrite age_all_keys. exact Hu.
+Qed.
+
+(* the age limit is a matter of the clock alone: when time passes between two passes with no activity, no settings change and no
+   restart in between, the second pass still leaves no file older than the maximum age - and it removes exactly the rows that have
+   aged past it (the size stage has nothing to do: the total still fits) *)
+Theorem evict_after_tick st :
+  UniqueKeys (rows st) ->
+  let s1 := evict st in
+  let s2 := evict (step s1 Tick) in
+  (forall a, max_age2 st = Some a -> forall x, In x (rows s2) -> 2 * r_age x <= a) /\
+  (forall a, max_age2 st = Some a -> rows s2 = filter (fun x => negb (a <? 2 * r_age x)) (age_all (rows s1))) /\
+  (max_age2 st = None -> rows s2 = age_all (rows s1)).
+Proof.
+  intros Hu s1 s2.
+  destruct (evict_facts st Hu) as [Hu1 [Hm1 [Ha1 [_ [Hb1 _]]]]]. fold s1 in Hu1, Hm1, Ha1, Hb1.
+  set (t := step s1 Tick) in *.
+  assert (Hut : UniqueKeys (rows t)) by (apply step_unique; exact Hu1).
+  assert (Hmt : max_size t = max_size st) by exact Hm1.
+  assert (Hat : max_age2 t = max_age2 st) by exact Ha1.
+  assert (Hrt : rows t = age_all (rows s1)) by reflexivity.
+  assert (Htot : total (rows t) = total (rows s1)).
+  { rewrite Hrt. apply total_age_all. }
+  destruct (evict_facts t Hut) as [_ [_ [_ [_ [_ [Hage2 _]]]]]]. fold s2 in Hage2.
+  assert (Hs : size_stage t = t).
+  { unfold size_stage. rewrite Hmt. destruct (max_size st) as [m|] eqn:E; [|reflexivity].
+    rewrite (size_pass_nothing_when_fits (rows t) m); [reflexivity|]. rewrite Htot. apply Hb1. reflexivity. }
+  split; [|split].
+  - intros a Ha. apply Hage2. rewrite Hat. exact Ha.
+  - intros a Ha. unfold s2. rewrite evict_unfold, Hs, Hat, Ha.
+    destruct (delete_files_rows t (files_for_age (rows t) a)) as [H1 _]. rewrite H1.
+    unfold files_for_age. rewrite (rows_minus_filter _ _ Hut). rewrite Hrt. reflexivity.
+  - intros Ha. unfold s2. rewrite evict_unfold, Hs, Hat, Ha. exact Hrt.
 Qed.
 
 Lemma reachable_unique ops : forall st, UniqueKeys (rows st) -> UniqueKeys (rows (fold_left step ops st)).
